@@ -318,8 +318,10 @@ func (f *Frame) execInstr(b *ssa.BasicBlock, in ssa.Instruction, o *blockOut) bo
 	case *ssa.Next:
 		f.env[x] = f.next(x, st)
 	case *ssa.Send:
-		// not modelled (no blocking, no channel contents); what is sent escapes to other goroutines
+		// channel contents are not modelled; what is sent escapes to other goroutines. The send itself is
+		// recorded in the ghosts sendN (number of sends) and sentRefs (references contained in sent values).
 		vc.markShared(f.val(x.X))
+		vc.recordSend(st, f.val(x.X), True)
 		vc.yield(st)
 	case *ssa.Select:
 		for _, s := range x.States {
@@ -328,7 +330,14 @@ func (f *Frame) execInstr(b *ssa.BasicBlock, in ssa.Instruction, o *blockOut) bo
 			}
 		}
 		vc.yield(st)
-		f.env[x] = f.selectOp(x)
+		sel := f.selectOp(x)
+		f.env[x] = sel
+		for i, s := range x.States {
+			if s.Send != nil && len(sel.Fs) > 0 {
+				// this send happens iff the select chose this case
+				vc.recordSend(st, f.val(s.Send), Eq(sel.Fs[0].T, IntLit(int64(i))))
+			}
+		}
 	case *ssa.Go:
 		f.goStmt(x, o)
 	case *ssa.Defer:
@@ -1082,3 +1091,47 @@ var wellKnownErrorsNew = map[string]bool{
 }
 
 func boundFnName(method string) string { return "bound." + smtName(method) }
+
+// recordSend updates the ghosts of channel sends: under cond, sendN grows by one and every reference
+// contained in the sent value is added to sentRefs (element addresses as elemkey(array, index)).
+func (vc *VC) recordSend(st *State, v Val, cond Term) {
+	n := vc.heapGet(st, "G.sendN", SInt)
+	vc.heapSet(st, "G.sendN", vc.nameTerm(Ite(cond, Add(n, IntLit(1)), n), "G.sendN"))
+	set := vc.heapGet(st, "G.sentRefs", ArrSort(SInt, SBool))
+	cur := set
+	for _, r := range vc.refsOf(v) {
+		cur = Store(cur, r, True)
+	}
+	if cur.S != set.S {
+		vc.heapSet(st, "G.sentRefs", vc.nameTerm(Ite(cond, cur, set), "G.sentRefs"))
+	}
+}
+
+func (vc *VC) elemKey(arr, idx Term) Term {
+	vc.decls.Fun("elemkey", []Sort{SInt, SInt}, SInt)
+	return App(SInt, "elemkey", arr, idx)
+}
+
+func (vc *VC) refsOf(v Val) []Term {
+	var out []Term
+	switch v.K {
+	case KPtr:
+		if v.T.S == "" {
+			return nil
+		}
+		if len(v.Path) == 1 && v.Path[0].IsIdx {
+			out = append(out, vc.elemKey(v.T, v.Path[0].Idx))
+		} else if len(v.Path) == 0 {
+			out = append(out, v.T)
+		}
+	case KIface, KMap, KChan:
+		if v.T.S != "" {
+			out = append(out, v.T)
+		}
+	case KStruct, KTuple:
+		for _, f := range v.Fs {
+			out = append(out, vc.refsOf(f)...)
+		}
+	}
+	return out
+}
